@@ -247,7 +247,7 @@ def run(ctx):
                      {"shape": "garbage", "recs": [], "term": True}, {"shape": "open", "recs": [101, 102], "term": True}],
             "jsonl": [{"shape": "absent", "recs": [], "term": True}, {"shape": "lines", "recs": [], "term": True},
                       {"shape": "lines", "recs": [101, 102, 103], "term": True}, {"shape": "lines", "recs": [101, 102], "term": False}]}
-    for _ in range(150 if ctx.quick else 3000):
+    for _ in range(150 if ctx.quick else 2000):
         kind = rng.choice(["json", "jsonl"])
         pre = rng.choice(pres[kind])
         names = random_names(rng, kind)
